@@ -652,6 +652,17 @@ Definition load (nm : names) (t : stored) : fsum :=
   mkFS (t_file0 t) (load_ctu nm (t_ctu t)) (load_uus nm (t_null t)) (load_uus nm (t_uninit t))
        (fst b) (snd b) (load_odr (t_odr t)).
 
+(* A source analysed under several preprocessor configurations: checkNormalTokens runs once per
+   configuration, each run pushes its summaries to mFileInfo (in memory) and calls
+   AnalyzerInformation::setFileInfo once per check, i.e. the analyzer-info file holds one
+   <FileInfo check="..."> block per configuration; processFilesTxt hands every block to the
+   loaders, which append.  Summaries of a file = all its per-configuration summaries, in order. *)
+Definition ctu_merge (cs : list ctu) : ctu := mkCtu (flat_map c_fcs cs) (flat_map c_ncs cs).
+Definition load_ctu_blocks (nm : names) (blocks : list (list xml)) : ctu :=
+  ctu_merge (map (load_ctu nm) blocks).
+Definition store_file (nm : names) (cfgs : list fsum) : list stored := map (store nm) cfgs.
+Definition load_file (nm : names) (blocks : list stored) : list fsum := map (load nm) blocks.
+
 Definition merged_ctu (l : list fsum) : ctu :=
   mkCtu (flat_map (fun s => c_fcs (s_ctu s)) l) (flat_map (fun s => c_ncs (s_ctu s)) l).
 
